@@ -130,6 +130,8 @@ func cmpsIn(pk *packages.Package, fd *ast.FuncDecl, fn string, subst map[types.O
 }
 
 func collectCmps(p *Prog) map[string][]cmpSite {
+	polyInline = inlinableFuncs(p)
+	defer func() { polyInline = nil }()
 	out := map[string][]cmpSite{}
 	cmpDecls = map[string]cmpDecl{}
 	p.funcDecls(func(pk *packages.Package, fd *ast.FuncDecl) {
